@@ -136,7 +136,9 @@ let () =
               List.iter (fun (e : entry) -> Printf.printf " %d,%d,%d" (kind_code e.e_kind) (opt_int e.e_arg) (if e.e_sr then 1 else 0)) (List.nth tb i);
               print_string "\n") sts;
             (match sm with
-             | Some sm -> H2dump.dump_dfa sm
+             | Some sm -> H2dump.dump_dfa sm;
+                          (* the derivative validator on this automaton (in --real mode: the REAL lexer_sm): false = the automaton is not the longest-match lexer of the terms *)
+                          if not (List.mem None tdata) then Printf.printf "LEXVALID %b\n" (lexer_ok sm (List.map (function Some x -> x | None -> assert false) tdata))
              | None -> print_string "DFA fail\n");
             let d = diag_text nm g sts tb in
             Printf.printf "DIAG %d\n%s\nENDDIAG\n" (String.length d) d;
